@@ -279,7 +279,10 @@ def apply_time_range_vevent(start, end, comp, tzify):
 
     duration = comp.get("DURATION")
     if duration:
-        return start < tzify(dtstart.dt) + duration.dt
+        if duration.dt > timedelta(0):
+            return start < tzify(dtstart.dt) + duration.dt
+        else:
+            return start <= tzify(dtstart.dt)
     if getattr(dtstart.dt, "time", None) is not None:
         return start <= tzify(dtstart.dt)
     else:
